@@ -6,7 +6,7 @@ NeedUpdate/NeedChange, the marker placement of NeedMarker._resolve and the flat-
 Framer.enterAll/segue/recur.  Theorems (coq/C20/Props.v) are history-level.
 Correspondence: generated FloScript programs (one framer, 2-4 flat frames, transitions guarded
 by 1-2 marker needs with/without `in frame [name]` and shared `by` marks, enter/recur/exit
-writes) built by the real Builder and run by the real Skedder (real=False) with scripted
+writes, optional entry guards `let me if .gate >= 1` on target frames with the gate toggled by the script) built by the real Builder and run by the real Skedder (real=False) with scripted
 external writes before and after the framer in every tick; the active frame after every tick
 is compared with the model inside Coq.
 """
@@ -29,8 +29,8 @@ def _load(name, path):
 _enc = _load("c45_enc", os.path.join(os.path.dirname(_HERE), "C45", "enc.py"))
 e_val, zlist, DECODE_COQ = _enc.e_val, _enc.zlist, _enc.DECODE_COQ
 
-SHARES = ["m.x", "m.y"]            # ids 1, 2
-FIELDS = ["fp", "fq", "extra"]   # ids 0, 1, 2 ("extra" is only ever ADDED by external writes)
+SHARES = ["m.x", "m.y", "gate"]    # ids 1, 2, 3 (gate: only the entry guards read it)
+FIELDS = ["fp", "fq", "extra", "value"]   # ids 0, 1, 2 ("extra" is only ever ADDED by external writes)
 BYS = ["mka", "mkb"]               # ids 1, 2
 VALS = [0, 1, 2, 1.0, "a"]
 
@@ -57,18 +57,30 @@ def gen_program(rng, K):
         return {"kind": rng.choice(["updated", "updated", "changed"]), "share": rng.randrange(2), "inf": inf,
                 "by": rng.randrange(2) if rng.random() < 0.4 else None}
     frames = []
+    guarded = rng.random() < 0.6          # programs with entry guards `let me if .gate >= 1` on some targets
+    sparse = rng.random() < 0.5           # few writes: a pending update must survive several refused attempts
     for i in range(nf):
         trans = []
         for _ in range(rng.choice([1, 1, 2])):
             far = rng.randrange(nf) if rng.random() < 0.15 else rng.choice([j for j in range(nf) if j != i])
             trans.append({"far": far, "needs": [need() for _ in range(rng.choice([1, 1, 1, 2]))]})
-        frames.append({"enter": [wr()] if rng.random() < 0.4 else [],
+        frames.append({"guard": guarded and i > 0 and rng.random() < 0.6,
+                       "enter": [wr()] if rng.random() < (0.15 if sparse else 0.4) else [],
                        "recur": [wr()] if rng.random() < 0.15 else [],
                        "exit": [wr()] if rng.random() < 0.2 else [],
                        "trans": trans})
     script = []
+    pw = 0.12 if sparse else 0.35
+    opens = rng.randint(1, K) if guarded else None      # the gate opens after this tick (and may close again)
+    closes = rng.randint(opens + 1, K + 2) if guarded and rng.random() < 0.3 else None
     for k in range(K + 1):
-        script.append(([wr(True)] if rng.random() < 0.35 else [], [wr(True)] if rng.random() < 0.35 else []))
+        pre = [wr(True)] if rng.random() < pw else []
+        post = [wr(True)] if rng.random() < pw else []
+        if k == opens:
+            post = post + [(2, 3, 1)]
+        if k == closes:
+            pre = [(2, 3, 0)] + pre
+        script.append((pre, post))
     return frames, script
 
 
@@ -95,6 +107,8 @@ def program_text(frames, K):
          "  framer test be active first F0"]
     for i, f in enumerate(frames):
         L.append("    frame F%d" % i)
+        if f["guard"]:
+            L.append("      let me if .gate >= 1")
         for w in f["enter"]:
             L.append("      " + put_text(w))
         if f["recur"]:
@@ -151,7 +165,7 @@ def run_impl(ctx, frames, script, K, tag):
     with open(path, "w") as f:
         f.write(program_text(frames, K))
     sk = skedding.Skedder(name="v", period=1.0, real=False, filepath=path,
-                          preloads=[(s, odict([("fp", 0), ("fq", 0)])) for s in SHARES])
+                          preloads=[(s, odict([("fp", 0), ("fq", 0)])) for s in SHARES[:2]] + [("gate", odict(value=0))])
     STATE["log"], STATE["script"], STATE["tick"] = [], script, 0
     try:
         if not sk.build():
@@ -167,8 +181,8 @@ def run_impl(ctx, frames, script, K, tag):
 # HISTORY (ticks of writes, entry resets and taken-transition resets; snapshots), never from stamps
 class Ref(object):
     def __init__(self):
-        self.data = {0: {0: 0, 1: 0}, 1: {0: 0, 1: 0}}        # share -> field -> value
-        self.wticks = {0: [], 1: []}               # ticks of writes while running
+        self.data = {0: {0: 0, 1: 0}, 1: {0: 0, 1: 0}, 2: {3: 0}}        # share -> field -> value
+        self.wticks = {0: [], 1: [], 2: []}               # ticks of writes while running
         self.resets = {}                           # (kind, share, key) -> list of (tick, 'enter'|'transit')
         self.snaps = {}                            # (share, key) -> dict copy at last 'changed' reset
 
@@ -228,7 +242,9 @@ def ref_run(frames, script, K):
             enter(0, 0)
         else:
             for tr in frames[active]["trans"]:
-                if all(R.holds(n["kind"], n["share"], key_of(active, n)) for n in tr["needs"]):
+                # a transition whose target is refused by its entry guard has NO effect at all
+                if all(R.holds(n["kind"], n["share"], key_of(active, n)) for n in tr["needs"]) and \
+                        (not frames[tr["far"]]["guard"] or R.data[2][3] >= 1):
                     for n in tr["needs"]:
                         R.reset(t, n["kind"], n["share"], key_of(active, n), "transit")
                     for w in frames[active]["exit"]:
@@ -267,6 +283,7 @@ def e_need(n):
 def e_prog(frames):
     out = [len(frames)]
     for f in frames:
+        out += ([1, 3, 3] if f["guard"] else [0])
         out += e_wrs(f["enter"]) + e_wrs(f["recur"]) + e_wrs(f["exit"]) + [len(f["trans"])]
         for t in f["trans"]:
             out += [t["far"], len(t["needs"])]
@@ -304,9 +321,12 @@ Definition pneed : P nsyn :=
     pret {| n_kind := k; n_share := s; n_in := i; n_by := b |})))).
 Definition ptrans : P tsyn :=
   pbind pN (fun far => pbind (plist pneed) (fun ns => pret {| t_far := far; t_needs := ns |})).
+Definition pguard : P (option (Z * Z)) := fun l =>
+  match l with 0%Z :: r => Some (None, r) | 1%Z :: s :: f :: r => Some (Some (s, f), r) | _ => None end.
 Definition pframe : P fsyn :=
+  pbind pguard (fun g =>
   pbind (plist pwr) (fun e => pbind (plist pwr) (fun r => pbind (plist pwr) (fun x => pbind (plist ptrans) (fun t =>
-    pret {| f_enter := e; f_recur := r; f_exit := x; f_trans := t |})))).
+    pret {| f_guard := g; f_enter := e; f_recur := r; f_exit := x; f_trans := t |}))))).
 Definition pscript : P (list (list wr * list wr)) :=
   plist (pbind (plist pwr) (fun a => pbind (plist pwr) (fun b => pret (a, b)))).
 Fixpoint nats_eqb (a b : list nat) : bool :=
@@ -318,7 +338,7 @@ Fixpoint nats_eqb (a b : list nat) : bool :=
 (* program, script, observed active frame per tick *)
 Definition chk (l : list Z) : bool :=
   match pbind (plist pframe) (fun p => pbind pscript (fun sc => pbind (plist pN) (fun obs =>
-          pret (nats_eqb (run_prog p [(1%Z, [(0%Z, VInt 0); (1%Z, VInt 0)]); (2%Z, [(0%Z, VInt 0); (1%Z, VInt 0)])] sc) obs)))) l with
+          pret (nats_eqb (run_prog p [(1%Z, [(0%Z, VInt 0); (1%Z, VInt 0)]); (2%Z, [(0%Z, VInt 0); (1%Z, VInt 0)]); (3%Z, [(3%Z, VInt 0)])] sc) obs)))) l with
   | Some (b, []) => b
   | _ => false
   end.
@@ -334,15 +354,17 @@ def run(ctx):
     K = 6
     ctx.rule = ("generated FloScript programs: one framer with 2-4 flat frames, 1-2 transitions per frame guarded by "
                 "1-2 needs `share is updated|changed [in frame [name]] [by marker]` over 2 shares x 2 fields, shared "
-                "`by` marks, enter/recur/exit `put` writes, plus scripted external writes (same and different values) "
+                "`by` marks, enter/recur/exit `put` writes, in 60%% of the programs entry guards `let me if .gate >= 1` on "
+                "target frames with the gate opened (and sometimes closed again) by the script so that satisfied "
+                "transitions are refused for some ticks, plus scripted external writes (same and different values) "
                 "before and after the framer in each of %d ticks; built by the real Builder, run by the real Skedder; "
                 "active frame after every tick compared with the Coq kernel model; non-trivial = at least one "
                 "transition taken; distinct by full program+script" % (K + 1))
     ctx.assumptions = [
         "time is the tick number (store.stamp advances by the period once per Skedder iteration); floats stamps are "
         "only compared, never computed with",
-        "kernel slice: one framer, flat frames (no over/under frames, no auxiliaries, no entry needs), transitions "
-        "guarded only by marker needs; field values are python scalars compared with != (py_eqb)",
+        "kernel slice: one framer, flat frames (no over/under frames, no auxiliaries), entry needs only of the form "
+        "`let me if gate >= 1` on a numeric store value, transitions guarded only by marker needs; field values are python scalars compared with != (py_eqb)",
         "a `by` marker name never equals a frame name (they would collide in the real key namespace framer<name)",
     ]
     res = ctx.coq_build("C20/Props.v")
